@@ -316,21 +316,25 @@ deriving Inhabited
 inductive Content where
   | mk (params : Params) (body : List Stmt) (env : List Nat) (outer : Option Content)
 
-/-- As-found switches: deviations of grass from the Sass rules that are reported as findings.
-    The specification is `Dev.spec` (all false); the correspondence runs against `Dev.asFound`. -/
+/-- As-found switches: deviations of grass from the Sass rules that were reported as findings.
+    The specification is `Dev.spec` (all false).  The code as it stands is `Dev.now`: N2 and N4 were
+    repaired in /repo (e36bfd5, e10570a), N3 is a known finding; the correspondence runs against
+    `Dev.now`.  `Dev.asFound` is the tree before those repairs (kept for the witnesses). -/
 structure Dev where
-  /-- N3: `p: ()` is silently dropped instead of failing with "() isn't a valid CSS value."
+  /-- N3 (known): `p: ()` is silently dropped instead of failing with "() isn't a valid CSS value."
       (ast/css.rs:59 `is_invisible` treats the empty list as blank). -/
   emptyListDeclDropped : Bool := false
-  /-- N2: the argument list bound to a rest parameter is always comma-separated, even when the
-      caller spread a space-separated list (`f($list...)`; visitor.rs:2308 / serializer.rs:938). -/
+  /-- N2 (repaired, e36bfd5): the argument list bound to a rest parameter was always
+      comma-separated, even when the caller spread a space-separated list (`f($list...)`). -/
   restAlwaysComma : Bool := false
-  /-- N4: `@debug`, `@warn` and `@error` deliver a quoted string WITH its quotes (visitor.rs:1043
-      `inspect`, :1594 `to_css_string`, :1343 `inspect`); the Sass rules deliver a string's text. -/
+  /-- N4 (repaired for @debug/@warn, e10570a): `@debug` and `@warn` delivered a quoted string WITH
+      its quotes.  (`@error` keeps `inspect`, quotes included — dart-sass does too — and is not
+      affected by this switch.) -/
   messageKeepsQuotes : Bool := false
 deriving Repr, DecidableEq, Inhabited
 
 def Dev.spec : Dev := {}
+def Dev.now : Dev := { emptyListDeclDropped := true }
 def Dev.asFound : Dev := { emptyListDeclDropped := true, restAlwaysComma := true, messageKeepsQuotes := true }
 
 structure Ctx where
@@ -775,8 +779,8 @@ def asList : Value → List Value
   | .map ps => ps.map fun (k, v) => .list [k, v] .space false
   | v => [v]
 
-/-- The text `@debug` / `@error` (`inspect := true`) and `@warn` deliver: a string's text, any
-    other value printed. -/
+/-- The text `@debug` (`inspect := true`) and `@warn` deliver: a string's text, any other value
+    printed (visitor.rs:1067, :1632). -/
 def messageText (dev : Dev) (inspect : Bool) (v : Value) : Except PrintErr String :=
   match v with
   | .str s _ =>
@@ -889,7 +893,8 @@ def stmtF (r : Rec) (ctx : Ctx) : Stmt → M (Option Value)
     pure none
   | .error e => do
     let v ← r.expr ctx e
-    let s ← liftPrint (messageText ctx.dev true v)
+    -- the error message is the inspected value (a quoted string keeps its quotes)
+    let s ← liftPrint v.inspect
     logMsg "error" s
     fail .userError
 
